@@ -314,12 +314,22 @@ def run(c):
         ops.append({"op": "new", "h": 0, "name": "g%d" % i, "as": i + 1})
         # a history of settings on one group: each one must be in force after its call, whatever was set before (default values included)
         for step in range(r.randint(1, 4)):
-            ops.append({"op": "setlimits", "h": i + 1, "prefix": "%s/g%d" % (root, i), "mem": mem, "pids": pids, "quota": quota, "period": period})
-            lim.append((mem, pids, quota, period))
+            cs = r.choice(["0", "1", "0-1", "1-2", "0,2"]) if (os.cpu_count() or 1) >= 4 else "0"
+            ops.append({"op": "setlimits", "h": i + 1, "prefix": "%s/g%d" % (root, i), "mem": mem, "pids": pids, "quota": quota, "period": period, "cpuset": cs})
+            lim.append((mem, pids, quota, period, cs))
             mem = r.choice([4, 8, 16, 64, 1000, 1 << 18]) * 4096 * r.randint(1, 50)
             pids = r.randint(1, 5000)
             period = r.choice([100000, 100000, 50000, 1000000, 1000])
             quota = r.randint(1000, 4 * period)
+        # another handle on the same group (opened, created again under the same name, or created again through the parent): the limits stay
+        how = i % 3
+        if how == 0:
+            ops.append({"op": "open", "prefix": "%s/g%d" % (root, i), "as": 500 + i})
+        elif how == 1:
+            ops.append({"op": "pkgnew", "prefix": "%s/g%d" % (root, i), "as": 500 + i})
+        else:
+            ops.append({"op": "new", "h": 0, "name": "g%d" % i, "as": 500 + i})
+        ops.append({"op": "readlimits", "prefix": "%s/g%d" % (root, i), "_after": ["OpenExisting", "New on the same prefix", "parent.New on the same name"][how], "_lim": len(lim) - 1})
     burns = [(40, 8), (120, 24)] if c.quick() else [(40, 8), (120, 24), (300, 64), (20, 2), (200, 100)]
     for j, (ms, mb) in enumerate(burns):
         ops += [{"op": "new", "h": 0, "name": "b%d" % j, "as": 200 + j}, {"op": "burn", "h": 200 + j, "ms": ms, "mb": mb}]
@@ -328,17 +338,24 @@ def run(c):
     for j in range(len(burns)):
         ops.append({"op": "destroy", "h": 200 + j})
     ops.append({"op": "destroy", "h": 0})
-    ob = c.run_harness(exe, [{"id": 0, "ops": ops}], env=env, timeout=600)[0]["obs"]
+    ob = c.run_harness(exe, [{"id": 0, "ops": [{k: v for k, v in op.items() if not k.startswith("_")} for op in ops]}], env=env, timeout=600)[0]["obs"]
     li = bi = 0
     for op, o in zip(ops, ob):
         if op["op"] == "setlimits":
-            mem, pids, quota, period = lim[li]
+            mem, pids, quota, period, cs = lim[li]
             li += 1
             c.count("limits-%d" % li, nontrivial=True, klass="limits")
-            got = (o["mem"], o["pids"], o["quota"], o["period"])
-            if got != (str(mem), str(pids), str(quota), str(period)) or o["mem_err"] or o["pids_err"] or o["cpu_err"]:
+            got = (o["mem"], o["pids"], o["quota"], o["period"], o["cpuset"])
+            if got != (str(mem), str(pids), str(quota), str(period), cs) or o["mem_err"] or o["pids_err"] or o["cpu_err"] or o.get("cpuset_err"):
                 c.finding_or_violation({"kind": "cgroup", "what": "the limits written are not the limits in force"},
-                                       {"written": {"memory": mem, "pids": pids, "cfs_quota_us": quota, "cfs_period_us": period}, "kernel_files": o}, klass="limits")
+                                       {"written": {"memory": mem, "pids": pids, "cfs_quota_us": quota, "cfs_period_us": period, "cpuset": cs}, "kernel_files": o}, klass="limits")
+        elif op["op"] == "readlimits":
+            mem, pids, quota, period, cs = lim[op["_lim"]]
+            c.count("limits-reopen-%d" % op["_lim"], nontrivial=True, klass="limits-reopen")
+            got = (o["mem"], o["pids"], o["quota"], o["period"], o["cpuset"])
+            if got != (str(mem), str(pids), str(quota), str(period), cs):
+                c.finding_or_violation({"kind": "cgroup", "what": "the limits written are no longer in force after another handle was made for the group", "by": op["_after"]},
+                                       {"written": {"memory": mem, "pids": pids, "cfs_quota_us": quota, "cfs_period_us": period, "cpuset": cs}, "kernel_files": o}, klass="limits-reopen")
         elif op["op"] == "burn":
             ms, mb = burns[bi]
             bi += 1
@@ -387,6 +404,14 @@ def run(c):
         cpu_items.append("(%s, %s)" % (coq_list([toks(l) for l in x["files"]["cpu.stat"].split("\n")]), rdv(o["v2_cpu"])))
         uint_items.append("(%s, %s)" % (toks(x["files"]["memory.current"]), rdv(o["v2_mem"])))
         same = {o[k] for k in ("v2_mem", "v2_mempeak", "v2_pidspeak", "v1_cpu", "v1_mem", "v1_mempeak")}
+        # the documented unit: the number in the file, whatever its size (up to 2^64 - 1)
+        txt = x["files"]["memory.current"].strip()
+        if txt.isdigit() and txt.isascii() and int(txt) < 1 << 64:
+            for k in ("v2_mem", "v2_mempeak", "v2_pidspeak", "v1_cpu", "v1_mem", "v1_mempeak"):
+                if o[k] != str(int(txt)):
+                    c.finding_or_violation({"kind": "cgroup", "what": "a usage reader does not return the number that is in the file", "digits": len(txt)},
+                                           {"content": x["files"]["memory.current"], "reader": k, "returned": o[k]}, klass="reader-value")
+                    break
         if len(same) != 1:
             c.finding_or_violation({"kind": "cgroup", "what": "the single-number readers disagree on one content"}, {"content": x["files"]["memory.current"], "readings": o}, klass="readers")
     body = HDR + ("Definition cpu : list (list (list tok) * rd) := %s.\nDefinition MC := Eval vm_compute in failing cpu_ok cpu.\nPrint MC.\n"
